@@ -144,6 +144,33 @@ def b_kernels(tier):
             l = outcome.run(lambda: lcm(q, r_))
             if not (l[0] == "val" and g[0] == "val" and abs(g[1] * l[1]) == abs(q * r_) and abs(l[1]) == math.lcm(q, r_)):
                 b.fail(Failure("kernels", f"what=lcm q={q} r={r_}", dict(kind="lcm", q=q, r=r_), expected=math.lcm(q, r_), actual=outcome.describe(l), functions=["lcm"]))
+    # the same routine on polynomials (PolynomialTraits is a Euclidean-ring traits class): pairs whose division chain stays exact over the integers (products of
+    # monic linear factors), and pairs where a leading coefficient does not divide (the remainder chain needs rational coefficients)
+    import pymbolic.primitives as prim
+    from pymbolic.polynomial import Polynomial
+    xv = prim.Variable("x")
+
+    def pv(pl, t):
+        return sum(c * t ** e for e, c in pl.data) if isinstance(pl, Polynomial) else pl
+    lin = lambda c: Polynomial(xv, ((0, c), (1, 1)))      # noqa: E731   x + c
+    ppairs = [("exact", lin(1) * lin(-1), lin(1)), ("exact", lin(1) * lin(2) * lin(3), lin(2) * lin(3)), ("exact", lin(0) * lin(1) * lin(1), lin(1) * lin(1)),
+              ("exact", lin(2), lin(2) * lin(-5) * lin(1)), ("exact", lin(4) * lin(4), lin(4)),
+              ("inexact", Polynomial(xv, ((0, 1), (2, 1))), lin(2)), ("inexact", Polynomial(xv, ((1, 2),)), Polynomial(xv, ((1, 3),))), ("inexact", lin(1) * lin(2), lin(2) * lin(5))]
+    for kind, q, r_ in ppairs:
+        res = outcome.with_alarm(2, lambda: outcome.run(lambda: extended_euclidean(q, r_)), default=("exc", outcome.DidNotTerminate, ("no result within 2 s",)))
+        b.case(("ee-poly", repr(q.data), repr(r_.data)), sample=dict(q=repr(q.data), r=repr(r_.data)))
+        ok = False
+        if res[0] == "val":
+            g, ca, cb = res[1]
+            pts_ = [-3, -1, 0, 1, 2, 5, Fraction(1, 2)]
+            ok = all(pv(g, t) == pv(ca, t) * pv(q, t) + pv(cb, t) * pv(r_, t) for t in pts_) and isinstance(g, Polynomial) and bool(g.data)
+            if ok:
+                for big in (q, r_):
+                    dm = outcome.run(lambda: divmod(big, g))
+                    ok = ok and dm[0] == "val" and not getattr(dm[1][1], "data", dm[1][1])
+        if not ok:
+            b.fail(Failure("kernels", f"what=extended_euclidean-polynomials chain={kind} q={q.data} r={r_.data}", dict(kind="ee-poly", q=repr(q.data), r=repr(r_.data)),
+                           expected="g = a*q + b*r, g divides q and r", actual=outcome.describe(res)[:200], functions=["extended_euclidean", "Polynomial.__divmod__", "Polynomial.__bool__"]))
     for args in [(), (12,), (12, 18), (12, 18, 27), (0, 5, 10), (-4, 6, 10)]:
         r = outcome.run(lambda: gcd_many(*args))
         b.case(("gm", args))
@@ -288,12 +315,36 @@ def b_poly(tier):
         if not (r[0] == "val" and tuple(r[1].data) == want):
             b.fail(Failure("polynomials", f"what=identity-mapper-rewrite p={a.data}", dict(kind="poly", op="idmap", p=repr(a.data)), expected=repr(want),
                            actual=(outcome.describe(r) if r[0] == "exc" else repr(tuple(r[1].data)))[:200], functions=["IdentityMapper.map_polynomial"]))
+    # degree: the largest exponent, -1 for the zero polynomial only
+    for a in polys:
+        r = outcome.run(lambda: a.degree)
+        b.case(("degree", repr(a.data)))
+        want = max((e for e, _ in a.data), default=-1)
+        if r != ("val", want):
+            b.fail(Failure("polynomials", f"what=degree p={a.data}", dict(kind="poly", op="degree", p=repr(a.data)), expected=repr(want), actual=outcome.describe(r)[:100], functions=["Polynomial.degree"]))
     # division with remainder over the rationals
     ints = [pl for pl in polys if all(isinstance(c, int) for _, c in pl.data)]
     for a, d in itertools.islice(itertools.product(trees.thin(ints, max(1, len(ints) // 3), seed=4), trees.thin(ints, max(1, len(ints) // 4), seed=5)), 0, 900):
-        if d.degree == -1:
+        if not d.data:          # the zero polynomial (decided on the data, not with the library's own degree)
             continue
         af, df = a, d
+        # the parts of divmod through // and %; and /: when it returns a value, that value times the divisor is the dividend (an inexact division may only raise)
+        for opn, op, part in (("floordiv", operator.floordiv, 0), ("mod", operator.mod, 1)):
+            r1 = outcome.run(lambda: op(af, df))
+            r0 = outcome.run(lambda: divmod(af, df))
+            b.case((opn, repr(a.data), repr(d.data)))
+            if not (r1[0] == r0[0] and (r1[0] != "val" or all(val(r1[1], t) == val(r0[1][part], t) for t in pts))):
+                b.fail(Failure("polynomials", f"what={opn} p={a.data} d={d.data}", dict(kind="poly", op=opn, p=repr(a.data), d=repr(d.data)), expected="the divmod part",
+                               actual=outcome.describe(r1)[:200], functions=[f"Polynomial.__{opn}__"]))
+        r1 = outcome.run(lambda: af / df)
+        b.case(("truediv", repr(a.data), repr(d.data)))
+        if r1[0] == "val":
+            okd = all(val(r1[1], t) * val(df, t) == val(af, t) for t in pts) and wf(r1[1])
+        else:
+            okd = issubclass(r1[1], ValueError)
+        if not okd:
+            b.fail(Failure("polynomials", f"what=truediv p={a.data} d={d.data}", dict(kind="poly", op="truediv", p=repr(a.data), d=repr(d.data)), expected="(p/d)*d == p, or ValueError for an inexact division",
+                           actual=(outcome.describe(r1) if r1[0] == "exc" else repr(getattr(r1[1], "data", r1[1])))[:200], functions=["Polynomial.__truediv__", "Polynomial.degree"]))
         r = outcome.run(lambda: divmod(af, df))
         b.case(("divmod", repr(a.data), repr(d.data)), sample=dict(op="divmod", p=repr(a.data), d=repr(d.data)))
         ok = False
